@@ -659,6 +659,22 @@ def run_property(pid, tier, seed):
             if len(ctx.violations) >= 3:
                 break
         if lean_failure and not ctx.violations:
+            # escalate the search before concluding: the same streams and twins at further seeds
+            for extra in (1, 2, 3):
+                sd = seed + 104729 * extra
+                items2 = [(n + "_x%d" % extra, c, o) for n, c, o in streams(pid, tier, sd)
+                          if not (n.startswith("sweep") or n.startswith("thr") or n.startswith("hex"))]
+                with ThreadPoolExecutor(max_workers=min(8, max(1, len(items2)))) as ex:
+                    results2 = list(ex.map(prepare, items2))
+                for res in results2:
+                    evaluate_stream(ctx, res)
+                for name, tw, ca, cb in twin_specs(pid, tier, sd):
+                    evaluate_twin(ctx, name + "_x%d" % extra, tw, ca, cb, "twin run (escalated search)")
+                    if ctx.violations: break
+                ctx.cov["escalated_search_seeds"] = extra
+                if ctx.violations:
+                    break
+        if lean_failure and not ctx.violations:
             path = runner.write_replay(pid, "lean", ["kind=proof obligation no longer checks: " + lean_failure,
                                                      "no input on which the property fails was found by the correspondence and monitor runs of this tier: no-failing-input-found",
                                                      getattr(ctx, "lean_log", "")[-3000:].replace("\n", " | ")], [])
